@@ -296,8 +296,12 @@ pub fn main_seq(dispatch: Dispatch) {
     if args.len() >= 2 && args[1] == "threads" {
         return threads::main_threads(dispatch, &args[2..]);
     }
-    if let Some(mb) = std::env::var("VFRT_STACK_MB").ok().and_then(|s| s.parse::<usize>().ok()) {
-        // deep-nesting workloads: the whole sequential driver runs on one thread with a large native stack
+    // The whole sequential driver runs on one thread with a large native stack (VFRT_STACK_MB, default 256): debug
+    // builds of generated parsers use tens of KB of stack per nesting level, and the stack is the harness's, not the
+    // parser's.  The reference evaluation never admits a case that nests more than a couple of hundred rule levels, so
+    // a stack overflow that still happens means the real parser recursed far deeper than the grammar asks for.
+    let mb = std::env::var("VFRT_STACK_MB").ok().and_then(|s| s.parse::<usize>().ok()).unwrap_or(256);
+    if mb > 0 && !cfg!(miri) {
         return std::thread::Builder::new()
             .stack_size(mb << 20)
             .spawn(move || main_seq_inner(dispatch, args))
